@@ -65,6 +65,7 @@ func main() {
 	// and the boundary cases of the quorum rule
 	for _, sc := range scripted() {
 		h := newHist(seed, sc.Module, sc.Name, rep, prop)
+		h.light = sc.Light
 		for _, o := range sc.Ops {
 			h.apply(o)
 		}
